@@ -82,6 +82,11 @@ impl Monitor for C13 {
             history.push(Step { problem, cancel });
         }
         let opts = if r.chance(2, 3) { async_opts(r) } else { SolveOpts::default() };
+        if r.chance(1, 300) && !crate::report::small() {
+            let perms = gener::huge_perms(&u, r);
+            let (u, problems) = gener::renumber_all(&u, &problems, &perms);
+            return C13Case { family: format!("{name}+huge-ids"), u, problems, history, opts };
+        }
         C13Case { family: name.into(), u, problems, history, opts }
     }
     fn check(&self, c: &C13Case, ctx: &mut Ctx) {
